@@ -344,7 +344,7 @@ def aspire_file_run(cfg, path, fail_at=None, resume=False, budget_s=60, every=1,
         else:
             flow = sd.FakeFlow(dims, seed=cfg["seed"] % 1000)
             a = Aspire(log_likelihood=target.log_likelihood, log_prior=target.log_prior, dims=dims,
-                       parameters=[f"x_{i}" for i in range(dims)], flow=flow, xp=xp, dtype=dt, flow_backend="fake")
+                       parameters=[sd.pname(i) for i in range(dims)], flow=flow, xp=xp, dtype=dt, flow_backend="fake")
         r.aspire = a
         kw = dict(sampler="minipcn_smc", rng=rng, sampler_kwargs={"n_steps": cfg["mcmc_steps"]}, **sk)
         kw.update(extra_kwargs or {})
